@@ -22,7 +22,7 @@ for v in $vs; do
   ok=$(grep -c 'test result: ok' "$wt/../log_$id$v.suite"); fl=$(grep -c 'test result: FAILED' "$wt/../log_$id$v.suite")
   cp "$src/demo.rs" "$wt/tests/demo.rs"
   (cd "$wt" && cargo test --offline --test demo >"$wt/../log_$id$v.changed" 2>&1); c=$?
-  if [ $c -ne 0 ] && grep -q 'test result: FAILED\|panicked' "$wt/../log_$id$v.changed"; then cf=1; else cf=0; fi
+  if [ $c -ne 0 ] && grep -q 'test result: FAILED\|panicked\|overflowed its stack\|SIGABRT\|signal: 6\|SIGSEGV' "$wt/../log_$id$v.changed"; then cf=1; else cf=0; fi
   echo "$id$v applied=$ap pristine_demo_ok=$pd suite_ok_groups=$ok suite_failed_groups=$fl changed_demo_failed=$cf" >> "$rd/verify_$id.txt"
   git -C /repo worktree remove --force "$wt"
 done
